@@ -23,11 +23,17 @@ func NewBufferPool(size int) *BufferPool {
 
 // Get returns new buffer from pool.
 func (p *BufferPool) Get() *bytes.Buffer {
+	if hooked {
+		b := p.pool.Get().(*bytes.Buffer)
+		poolHook("get", p, b)
+		return b
+	}
 	return p.pool.Get().(*bytes.Buffer)
 }
 
 // Put returns buffer to pool.
 func (p *BufferPool) Put(b *bytes.Buffer) {
+	poolHook("put", p, b)
 	b.Reset()
 	p.pool.Put(b)
 }
